@@ -444,3 +444,86 @@ def run(ctx: Ctx):
                               f"generate:{dotted(inner.iter.func)}:message",
                               f"vectors are generated for `{ast.unparse(inner.iter.args[0]) if inner.iter.args else None}`, "
                               f"not for the message `{lv}` whose name labels the file", P_TD, inner.lineno)
+
+
+def _fold_generate(ctx: Ctx):
+    """Semantic form of the file-name clause: generate() is executed in the micro-evaluator on a synthetic model
+    (two requests whose responses have identical content, one notification) with the three vector generators
+    stubbed to fixed (flag, value) pairs.  The resulting mapping must contain, for every message class and every
+    pair, the key `<Class>-<flag>-<sha256(content)>.json` with content json.dumps(value, indent=4,
+    ensure_ascii=False) -- in particular vectors of different classes with equal content must all survive."""
+    import hashlib
+    import json as _json
+    from ..microeval import Interp, Record, Raised, ModuleRef, Closure
+    m = Module(P_TD, ctx.src.text(P_TD))
+    it = Interp(m.tree, name=P_TD)
+    gen = it.globals.get("generate")
+    if not isinstance(gen, Closure):
+        raise AnalysisError(f"{P_TD}: generate not found")
+    pairs_req = [(True, {"jsonrpc": "2.0", "id": 1, "method": "M"}), (False, {"jsonrpc": "2.0", "method": "M"})]
+    pairs_resp = [(True, {"jsonrpc": "2.0", "id": 1, "result": None}), (False, {"jsonrpc": "2.0"})]
+    pairs_not = [(True, {"jsonrpc": "2.0", "method": "N"}), (False, {"jsonrpc": "2.0", "id": 1, "method": "N"})]
+    it.globals["generate_requests"] = ("host", lambda req, spec: [(f, dict(v, method=req.fields["method"])) for f, v in pairs_req])
+    it.globals["generate_responses"] = ("host", lambda req, spec: list(pairs_resp))
+    it.globals["generate_notifications"] = ("host", lambda n, spec: [(f, dict(v, method=n.fields["method"])) for f, v in pairs_not])
+    it.globals["get_hash_from"] = ("host", lambda text: hashlib.sha256(text.encode("utf-8")).hexdigest())
+    it.globals["RESPONSE_ERROR"] = Record("Structure", {"name": "ResponseError"})
+    it.globals.setdefault("json", ModuleRef("json", attrs={"dumps": ("host", _json.dumps)}))
+
+    def msg(method, type_name):
+        return Record("Message", {"method": method, "typeName": type_name, "params": None, "result": None})
+    spec = Record("LSPModel", {"structures": [], "requests": [msg("a/one", "OneRequest"), msg("a/two", None)],
+                               "notifications": [msg("$/note", "NoteNotification")]})
+    logger = Record("Logger", {"info": ("host", lambda *a, **k: None), "debug": ("host", lambda *a, **k: None)})
+    try:
+        out = gen(spec, logger)
+    except Raised as e:
+        raise AnalysisError(f"{P_TD}: generate raises {e.exc_name} when folded on the synthetic model")
+    if not isinstance(out, dict):
+        raise AnalysisError(f"{P_TD}: generate does not fold to a mapping")
+    expect = {}
+    for cls, pairs in (("OneRequest", [(f, dict(v, method="a/one")) for f, v in pairs_req]), ("OneResponse", pairs_resp),
+                       ("ATwoRequest", [(f, dict(v, method="a/two")) for f, v in pairs_req]), ("ATwoResponse", pairs_resp),
+                       ("NoteNotification", [(f, dict(v, method="$/note")) for f, v in pairs_not])):
+        for f, v in pairs:
+            content = _json.dumps(v, indent=4, ensure_ascii=False)
+            expect[f"{cls}-{f}-{hashlib.sha256(content.encode('utf-8')).hexdigest()}.json"] = (cls, f, content)
+    for name, (cls, f, content) in sorted(expect.items()):
+        ctx.check(out.get(name) == content, "vector-file-per-class-and-label", f"class={cls} label={f}",
+                  f"on the synthetic model generate() does not produce the vector file {name[:40]}... for {cls} "
+                  f"(label {f}) with the dumped content ({'missing' if name not in out else 'different content'}); "
+                  f"produced keys for that class: {[k[:30] for k in out if k.startswith(cls + '-')]}", P_TD, None,
+                  sample={"class": cls, "label": f, "file": name[:48] + "..."})
+    extra = sorted(set(out) - set(expect))
+    ctx.check(not extra, "vector-file-per-class-and-label", "no-extra-files",
+              f"generate() produces unexpected files {[e[:40] for e in extra[:3]]}", P_TD, None)
+
+
+def _testdata_flatten(ctx: Ctx):
+    from .. import flatten
+    from ..genlint import Index
+    idx = Index(ctx.src, dirs=("generator/plugins/testdata",))
+    spec, structs = flatten.lattice()
+    for sname in ("A", "B", "C"):
+        exp = flatten.expected(structs, sname)
+        got = flatten.fold_plain(idx, flatten.P_TD, spec, structs, sname)
+        for k in sorted(set(exp) | set(got)):
+            ctx.check(exp.get(k) == got.get(k), "vectors-use-nearest-declaration", f"struct={sname} prop={k}",
+                      f"testdata get_all_properties gives {sname}.{k} the declaration of {got.get(k)!r}; the nearest one is "
+                      f"{exp.get(k)!r}: vectors are generated (and labelled) against the wrong property type", flatten.P_TD, None)
+
+
+_run_c17 = run
+
+
+def run(ctx: Ctx):  # noqa: F811
+    # the syntactic file-name template rule is kept when the three sites have the pinned shape; the semantic
+    # fold below decides the clause in any case
+    try:
+        _run_c17(ctx)
+    except AnalysisError as e:
+        if "file-name sites" not in str(e) and "content / name / store" not in str(e) and "unexpected loop target" not in str(e):
+            raise
+        ctx.notes.append(f"syntactic file-name rule skipped: {e}")
+    _fold_generate(ctx)
+    _testdata_flatten(ctx)
